@@ -111,6 +111,36 @@ def run_case(case):
     if t2.root_hash != r.trie.root_hash:
         res.fail("root-depends-on-history", "contents %r: %s vs %s after reinsertion in another order"
                  % (sorted(r.model.items()), r.trie.root_hash.hex(), t2.root_hash.hex()))
+    # operations that SUCCEED on an incomplete database (a node body withheld, as in beam sync) must also leave the
+    # Yellow-Paper root of the resulting mapping (whether such an operation may raise instead is C07's subject)
+    if len(r.db) >= 3 and not case["prune"]:
+        victims = sorted(h for h in r.db if h != r.trie.root_hash)
+        victim = victims[prng.randrange(len(victims))]
+        body = r.db.pop(victim)
+        res.emit("hx.drop %s" % hx(victim), "ok")
+        r.free_sync = r.rr_sync = False
+        model2 = dict(r.model)
+        for k in sorted(r.model)[:4]:
+            before_root = r.trie.root_hash
+            try:
+                r.trie.delete(k)
+                out = "ok"
+            except Exception as e:  # noqa
+                out = hexlib.fmt_exc(e)
+            res.emit("hx.del 0 %s" % hx(k), out)
+            if out == "ok":
+                model2.pop(k, None)
+                want = hexlib.yp_root(model2)
+                if r.trie.root_hash != want:
+                    res.fail("root-not-yellow-paper", "on a database with one node body withheld delete(%r) succeeded and left the root %s; "
+                             "the Yellow Paper root of the resulting mapping is %s" % (k, r.trie.root_hash.hex(), want.hex()))
+                res.tags.add("partial-db-op:ok")
+            else:
+                res.tags.add("partial-db-op:raised")
+                if r.trie.root_hash != before_root:
+                    res.fail("root-depends-on-history", "a raising delete changed the root")
+        r.db[victim] = body
+        res.emit("hx.put %s %s" % (hx(victim), hx(body)), "ok")
     res.tags.add("prune" if case["prune"] else "noprune")
     res.nontrivial = len(r.model) >= 2
     res.state_key = common.sha(sorted((k.hex(), v.hex()) for k, v in r.model.items()))
